@@ -27,14 +27,14 @@ func init() {
 			return append(stdBatches([]string{"base"}, 12), stdBatches([]string{"ptr"}, 2)...)
 		},
 		Gates: func(tier string) map[string]int64 {
-			return map[string]int64{"pairs": 3000, "lazy_hook_enter": 500, "lazy_field_present": 1500, "op:obs-passthrough": 500, "op:mut-merge-into": 200, "rejected_both": 200, "wireop:wrong-wiretype": 50, "wireop:dup-anywhere": 50}
+			return map[string]int64{"pairs": 3000, "lazy_hook_enter": 500, "lazy_field_present": 1500, "op:obs-passthrough": 500, "op:mut-merge-into": 200, "op:mut-merge-into-decoded": 150, "rejected_both": 200, "wireop:wrong-wiretype": 50, "wireop:dup-anywhere": 50}
 		},
 		Run: runC17,
 	})
 }
 
 var c17Ops = []string{"obs-passthrough", "obs-det", "obs-has", "obs-get-lazy", "obs-equal", "obs-checkinit", "obs-json", "obs-text", "obs-snapshot",
-	"mut-clear", "mut-set", "mut-mutable", "mut-merge-into", "mut-merge-from", "mut-clone", "mut-merge-decode"}
+	"mut-clear", "mut-set", "mut-mutable", "mut-merge-into", "mut-merge-from", "mut-clone", "mut-merge-decode", "mut-merge-into-decoded"}
 
 func runC17(c *core.Ctx, b core.Batch) {
 	st := mon.CountLazy()
@@ -290,6 +290,17 @@ func c17Case(c *core.Ctx, r *core.Rand, mt protoreflect.MessageType, name string
 				gen.Fill(r.Fork(2), x, fo)
 				proto.Merge(L.Interface(), x.Interface())
 				proto.Merge(E.Interface(), x.Interface())
+			case "mut-merge-into-decoded":
+				// the source is itself a freshly decoded message: lazily decoded (and not yet
+				// accessed) on the lazy side, eagerly decoded on the eager side
+				more := c17Input(r.Fork(4), mt, lazyFds, fo, func(string) {})
+				xl, xe := mt.New(), mt.New()
+				e1 := proto.UnmarshalOptions{AllowPartial: true}.Unmarshal(more, xl.Interface())
+				e2 := proto.UnmarshalOptions{AllowPartial: true, NoLazyDecoding: true}.Unmarshal(more, xe.Interface())
+				if e1 == nil && e2 == nil {
+					proto.Merge(L.Interface(), xl.Interface())
+					proto.Merge(E.Interface(), xe.Interface())
+				}
 			case "mut-merge-from":
 				seed := r.Uint64()
 				dl, de := mt.New(), mt.New()
